@@ -38,7 +38,7 @@ COND_DEFS = {
 }
 
 GUARDS = [
-    (r"\(self\.quirks_mode\.get\(\) == Quirks\)", "quirks-mode"),
+    (r"self\.quirks_mode\.get\(\) matches Quirks", "quirks-mode"),
     (r"self\.opts\.iframe_srcdoc", "iframe-srcdoc"),
     (r"self\.opts\.scripting_enabled", "scripting"),
     (r"self\.in_html_elem_named\(atom:template\)", "template-on-stack"),
@@ -62,7 +62,7 @@ GUARDS = [
     (r"self\.in_scope\(default_scope,\|\.\.\|\{self\.sink\.same_node\(self\.form_elem\.take\(\)\.0,a1\).*", "form-node-in-scope"),
     (r"self\.frameset_ok\.get\(\)", "frameset-ok"),
     (r"self\.body_elem\(\)(\.(cloned\(\)|map\(\|\.\.\|\{a1\}\)))? matches Some\(_\)", "has-body-elem"),
-    (r"\(self\.open_elems\.len\(\) == 1\)", "stack-has-one-element"),
+    (r"self\.open_elems\.len\(\) matches 1", "stack-has-one-element"),
 ]
 # guards that belong to a macro region / are decided by the token class and are not conditions of the row
 DROP_GUARDS = [
